@@ -19,8 +19,10 @@ func ParseRaw(data []byte) ([]Raw, error) {
 		if err != nil {
 			return nil, err
 		}
-		item := Raw{Class: rawItem.Class, Tag: rawItem.Tag, Bytes: rawItem.Bytes, FullBytes: rawItem.FullBytes}
-		if rawItem.IsCompound {
+		item := Raw{Class: rawItem.Class, Tag: rawItem.Tag, IsCompound: rawItem.IsCompound, Bytes: rawItem.Bytes, FullBytes: rawItem.FullBytes}
+		// An empty constructed value (e.g. an empty SEQUENCE, 30 00) has no children;
+		// asn1.Unmarshal would reject the empty content as truncated.
+		if rawItem.IsCompound && len(rawItem.Bytes) > 0 {
 			children, err := ParseRaw(rawItem.Bytes)
 			if err != nil {
 				return nil, err
@@ -36,11 +38,12 @@ func ParseRaw(data []byte) ([]Raw, error) {
 }
 
 type Raw struct {
-	Class     int
-	Tag       int
-	Bytes     []byte
-	FullBytes []byte
-	Children  []Raw
+	Class      int
+	Tag        int
+	IsCompound bool
+	Bytes      []byte
+	FullBytes  []byte
+	Children   []Raw
 }
 
 func (r Raw) TypeString() string {
